@@ -73,6 +73,7 @@ Print Assumptions C06_context_order.
 Definition C06_optimize_sound_full_statement : Prop := forall rules, same_decisions (optimize rules) rules.
 
 Theorem C06_optimize_sound_refuted :
+  optimizer_condition_ok = false ->   (* true by computation on the unchanged tree: see [C06_optimizer_status] *)
   exists rules rr recv reg m, msg_wf m = true /\ check_can_send (optimize rules) rr recv reg m <> check_can_send rules rr recv reg m.
 Proof. exact optimize_sound_refuted. Qed.
 Print Assumptions C06_optimize_sound_refuted.
@@ -171,20 +172,24 @@ Example C06_ex_optimize_prunes_soundly :
   universal deny_all = true /\ catch_all_c deny_all = true /\ length (optimize [w_allow_send; deny_all]) = 1%nat.
 Proof. repeat split; vm_compute; reflexivity. Qed.
 
-Example C06_ex_f3_not_universal :
-  exists r, In r f3_rules /\ catch_all_c r = true /\ universal r = false.
-Proof. exists (nth 1 f3_rules w_allow_send). repeat split; vm_compute; auto. Qed.
-
-(* the test regenerated from bus/policy.c is the one finding F3 is about *)
-Example C06_ex_condition_is_known : forall r, catch_all_c r = f3_condition r.
+(* Which world are we in?  Either the test regenerated from bus/policy.c is exactly the one finding F3 is about (and then
+   it is not sound: the hypothesis of [C06_optimize_sound_refuted] holds), or it implies [universal] (after the fix; then
+   [C06_optimize_sound_if_condition_ok] gives soundness for all rule lists).  Any other test -- e.g. a weaker one -- breaks
+   this proof. *)
+Example C06_optimizer_status :
+  (optimizer_condition_ok = false /\ (forall r, catch_all_c r = f3_condition r) /\
+   exists r, In r f3_rules /\ catch_all_c r = true /\ universal r = false)
+  \/ optimizer_condition_ok = true.
 Proof.
-  intros r. unfold catch_all_c, f3_condition, mask_holds, atom_bcast, atom_minfds, atom_maxfds, atom_reply, atom_eaves, atom_noprefix,
-    atom_type, atom_path, atom_iface, atom_member, atom_error.
-  destruct (r_kind r); simpl; rewrite ?andb_true_r; reflexivity.
+  destruct optimizer_condition_ok eqn:E; [right; reflexivity | left].
+  first
+    [ exfalso; vm_compute in E; discriminate
+    | split; [reflexivity|]; split;
+      [ intros r; unfold catch_all_c, f3_condition, mask_holds, atom_bcast, atom_minfds, atom_maxfds, atom_reply, atom_eaves,
+          atom_noprefix, atom_type, atom_path, atom_iface, atom_member, atom_error;
+        destruct (r_kind r); simpl; rewrite ?andb_true_r; reflexivity
+      | exists (nth 1 f3_rules w_allow_send); repeat split; vm_compute; auto ] ].
 Qed.
-
-Example C06_ex_condition_not_ok : optimizer_condition_ok = false.
-Proof. vm_compute. reflexivity. Qed.
 
 Example C06_ex_denied_call :
   verdict_ok (fst (gate w_bus (Some 0) (Some 1) (Some 1) w_call)) = false /\ addressed_of w_bus w_name1 = Some (Some 1).
